@@ -761,6 +761,10 @@ impl Paragraph {
         for (pre, entry) in entries.into_iter() {
             for c in pre.into_iter() {
                 builder.token(c.kind().into(), c.as_token().unwrap().text());
+                // the line break after a comment is a separate token that was not collected
+                if c.kind() == COMMENT {
+                    builder.token(NEWLINE.into(), "\n");
+                }
             }
 
             inject(
@@ -778,6 +782,9 @@ impl Paragraph {
 
         for c in current {
             builder.token(c.kind().into(), c.as_token().unwrap().text());
+            if c.kind() == COMMENT {
+                builder.token(NEWLINE.into(), "\n");
+            }
         }
 
         builder.finish_node();
